@@ -49,6 +49,13 @@ SCENARIOS = [
      '#[constructor(new), derive(B)] class C { fn hi(self) { return "C>" + super.hi(); } }\nprint(C.new().hi()); print(B.new().hi());\n'
      'var c = C.new(); var bh = B.new().hi; print(bh());',
      ["C>B>A", "B>A", "B>A"]),
+    ("super-inside-closures-keeps-the-receiver",
+     'class A { fn who(self) { return "A.who(" + self.tag + ")"; } fn two(self, x) { return self.tag + x; } }\n'
+     '#[derive(A)] class B { #[constructor] fn new(self, t) { self.tag = t; } fn who(self) { return "B.who"; }\n'
+     ' fn m(self) { fn inner() { return super.who(); } return inner(); }\n fn m2(self) { var f = || super.who(); return f(); }\n'
+     ' fn m3(self) { fn outer() { fn deep() { return super.two("!"); } return deep; } return outer()(); }\n fn m4(self) { fn g() { return super.who; } return g()(); } }\n'
+     'var b = B.new("b"); print(b.m()); print(b.m2()); print(b.m3()); print(b.m4()); var later = B.new("late").m3; print(later());',
+     ["A.who(b)", "A.who(b)", "b!", "A.who(b)", "late!"]),
     ("super-survives-rebinding",
      '#[constructor(new)] class A { fn hi(self) { return "old A"; } }\n#[constructor(new), derive(A)] class B { fn hi(self) { return super.hi(); } fn grab(self) { return super.hi; } }\n'
      'var b = B.new(); A = nil; print(b.hi()); print(b.grab()());\n#[constructor(new)] class A2 { fn hi(self) { return "new"; } } A = A2; print(b.hi()); print(B.new().hi());',
@@ -156,7 +163,7 @@ def correspondence(ctx, model_ok=True):
     for (n, s, m, _), x, y in zip(gen, a, b):
         if progs.canon_step(x) != progs.canon_step(y) or (isinstance(y, dict) and y.get("uaf")):
             failures.append({"what": "class program behaves differently under stress collection", "program": s, "signature": "class program gc-dependent", "failing_input": True})
-    sd = specdiff.diff(ctx, [(n, s, m) for n, s, m, _ in gen], "C07", broken) if model_ok else {"failures": [], "compared": 0}
+    sd = specdiff.diff(ctx, [(n, s, m) for n, s, m, _ in gen] + [("scenario:" + sc[0], sc[1], {}) for sc in SCENARIOS], "C07", broken) if model_ok else {"failures": [], "compared": 0}
     failures += sd["failures"]
     tags = {}
     for _, _, _, tg in gen:
